@@ -66,6 +66,8 @@ class _S(object):
         self.kind = kind
         self.read = set()       # reads that reach this scope
         self.bound = set()
+        self.nonlocals = set()  # names declared nonlocal / global in this scope's own blocks: bound here by the analysis'
+        self.globals = set()    # convention, but they denote a variable of an ENCLOSING scope
 
 
 class _Facts(ast.NodeVisitor):
@@ -100,8 +102,9 @@ class _Facts(ast.NodeVisitor):
         self.cur.bound.add(name)
 
     def _leave(self, child):
-        """isolated scope exit: parent.read |= child.read - child.bound"""
-        self.cur.read |= (child.read - child.bound)
+        """isolated scope exit: parent.read |= child.read - (child.bound - child.nonlocals - child.globals): reading a name
+        the nested scope declares nonlocal / global reads the enclosing variable (Scope.finalize, isolated branch)"""
+        self.cur.read |= (child.read - (child.bound - child.nonlocals - child.globals))
 
     # ---- visitors
     def visit_Name(self, node):
@@ -127,6 +130,7 @@ class _Facts(ast.NodeVisitor):
             self.idents.add(n)
             self.read_any.add(n)
             self.cur.read.add(n)
+            self.cur.globals.add(n)
 
     def visit_Nonlocal(self, node):
         for n in node.names:
@@ -134,6 +138,7 @@ class _Facts(ast.NodeVisitor):
             self.read_any.add(n)
             self.cur.read.add(n)
             self.cur.bound.add(n)
+            self.cur.nonlocals.add(n)
             self.bound_all.add(n)
             if len(self.stack) > 1:
                 self.nested_kinds.setdefault(n, set()).add('nonlocal')
@@ -333,7 +338,7 @@ def node_facts(fn, module_names):
                 if isinstance(m, ast.Name) and isinstance(m.ctx, ast.Store):
                     blocks.add(m.id)
     return {'name': fn.name, 'bound': sorted(v.bound_all), 'read': sorted(read), 'readLocal': sorted(v.read_any - read),
-            'free': sorted(read - s.bound), 'idents': sorted(v.idents), 'starCalls': star, 'kwCalls': kw,
+            'free': sorted(read - (s.bound - s.nonlocals - s.globals)), 'idents': sorted(v.idents), 'starCalls': star, 'kwCalls': kw,
             'blockVarRoots': sorted(blocks), 'ns': sorted(module_names)}
 
 
@@ -499,7 +504,7 @@ SEPARATED = {
 READ_ROLES = {'read_only_global', 'parameter', 'local', 'global_var', 'closure_free_var', 'closure_nonlocal',
               'nested_function_called', 'loop_target_read', 'loop_var_modified', 'two_locals_numbered',
               'local_in_nested_def_loop', 'attribute_name', 'keyword_name', 'bound_with_star_call', 'bound_with_keyword_call',
-              'parameter_with_star_and_keyword_call'} | set(NESTED_ONLY)
+              'parameter_with_star_and_keyword_call', 'nonlocal_in_nested'} | set(NESTED_ONLY)
 
 
 def make_variant(prog_json, role, word, rng):
@@ -820,7 +825,7 @@ def _visible_in(U):
                     rec(wrap)
                 v = _Facts()
                 sc = v._function(copy.deepcopy(ch), False)
-                out.update(sc.read - sc.bound)
+                out.update(sc.read - (sc.bound - sc.nonlocals - sc.globals))
                 continue
             if isinstance(ch, ast.Name):
                 out.add(ch.id)
@@ -930,7 +935,7 @@ def use_site_clashes(ctrl_case, ctrl_r, case, r):
                     sc = v._function(copy.deepcopy(U), False)
                     star, kw = call_shapes(U)
                     fu = {'name': U.name, 'bound': sorted(v.bound_all), 'read': sorted(sc.read), 'readLocal': sorted(v.read_any - sc.read),
-                          'free': sorted(sc.read - sc.bound), 'idents': sorted(v.idents), 'starCalls': star, 'kwCalls': kw,
+                          'free': sorted(sc.read - (sc.bound - sc.nonlocals - sc.globals)), 'idents': sorted(v.idents), 'starCalls': star, 'kwCalls': kw,
                           'nestedDefOnly': sorted(x for x in (v.read_any - sc.read) if v.nested_kinds.get(x) and v.nested_kinds[x] <= {'function'})}
                     out.append(['/'.join(path) or '<top>', w, fu])
     return out
